@@ -104,4 +104,3 @@ func EditText(r *rand.Rand, t string) string {
 	}
 	return t + " "
 }
-
